@@ -351,3 +351,5 @@ def run(ctx):
     # shared with C19: the option that admits non-histogram operands is off unless the environment says "1"
     ctx.borrow("C19", ("default:env",), "C05.d")
     ctx.borrow("C13", ("HistogramBase._coerce_dtype:promotes",), "C05.a")
+    # adding partial histograms equals the whole only if growth puts every value in the bin the whole-data binning gives it (shared with C04.c)
+    ctx.borrow("C04", ("_force_bin_existence_single:",), "C05.c", floor=4)
